@@ -964,6 +964,39 @@ def str_get(I, callee, args, st, n, fidx):
     return val(t, st)
 
 
+def _upper_of(x):
+    return Term("upper_of", (x,), "&str")
+
+
+@prim("core::str::to_ascii_uppercase", "std::str::to_ascii_uppercase", "alloc::str::to_ascii_uppercase")
+def s_to_upper(I, callee, args, st, n, fidx):
+    """ASCII upper-casing of a text: a canonical term, so that two upper-cased copies of the same text compare equal."""
+    return val(_upper_of(args[0]), st)
+
+
+@prim("std::string::String::as_str", "alloc::string::String::as_str")
+def s_string_as_str(I, callee, args, st, n, fidx):
+    if isinstance(args[0], Term) and args[0].op == "upper_of":
+        return val(args[0], st)
+    return val(Term("ext:" + callee, (args[0],), n.get("ty")), st)
+
+
+@prim("core::str::from_utf8_unchecked", "std::str::from_utf8_unchecked")
+def s_from_utf8_unchecked(I, callee, args, st, n, fidx):
+    """`from_utf8_unchecked(&buf[..len(S)])` where the local buffer was filled, on this path, only with
+    `to_ascii_uppercase()` bytes: the upper-cased copy of S (that the buffer holds exactly S's bytes upper-cased is
+    rule R-UPPER-FLOW of C16; recorded as a cross-rule assumption)."""
+    a = args[0]
+    if isinstance(a, Term) and a.op == "index" and len(a.args) == 2:
+        rng = a.args[1]
+        end = rng.fields.get("end") if isinstance(rng, Enum) else None
+        if isinstance(end, Term) and end.op == "len" and end.args:
+            stores = [e for e in st.events if e.kind == "index_store"]
+            if all("to_ascii_uppercase" in repr(e.d.get("value")) for e in stores):
+                return val(_upper_of(end.args[0]), st)
+    return val(Term("ext:" + callee, (a,), n.get("ty")), st)
+
+
 @prim("core::str::is_empty")
 def s_is_empty(I, callee, args, st, n, fidx):
     """is_empty of a source slice between two cursor byte snapshots: decided by the consumed-char lower bound."""
